@@ -416,7 +416,8 @@ class QueryScheduler:
             # If the expire time is within self._min_time_between_queries_millis
             # of the current scheduled time avoid churn by not rescheduling
             if (
-                -self._min_time_between_queries_millis
+                current.ttl == pointer.ttl
+                and -self._min_time_between_queries_millis
                 <= refresh_time_millis - current.when_millis
                 <= self._min_time_between_queries_millis
             ):
